@@ -176,6 +176,15 @@ impl Fabric {
         {
             let mut inner = self.inner.lock().unwrap();
             inner.sent += 1;
+            if std::env::var_os("VERIF_STORM").is_some() && inner.sent % 20_000 == 0 {
+                eprintln!(
+                    "fabric: {} datagrams sent; now {src}->{dst} len {} first byte {:02x} t={}ms",
+                    inner.sent,
+                    datagram.len(),
+                    datagram[0],
+                    inner.epoch.elapsed().as_millis()
+                );
+            }
             let index = {
                 let c = inner.counters.entry((src, dst)).or_insert(0);
                 let i = *c;
@@ -334,6 +343,14 @@ impl quinn::AsyncUdpSocket for SimSocket {
 
     fn local_addr(&self) -> io::Result<SocketAddr> {
         Ok(self.addr)
+    }
+
+    /// Behave like a GSO-capable socket. (With 1 here quinn 0.11.12 never finishes closing a
+    /// client connection that failed during the handshake: the padded Initial close packet fills
+    /// the only datagram, the Handshake-space close is never reached, and under a paused clock
+    /// the connection driver spins forever.)
+    fn max_transmit_segments(&self) -> usize {
+        8
     }
 
     fn may_fragment(&self) -> bool {
